@@ -196,14 +196,21 @@ def _worker(args):
 
 
 def run_pool(modname: str, specs: list[dict], procs: int = NSHARDS):
+    """Run the shards in worker processes. A worker that dies (e.g. OOM-killed) is a harness error, never a hang."""
+    from concurrent.futures import ProcessPoolExecutor
+    from concurrent.futures.process import BrokenProcessPool
+
     if not specs:
         return []
     procs = max(1, min(procs, len(specs)))
     if procs == 1:
         return [_worker((modname, s)) for s in specs]
     ctx = mp.get_context("fork")
-    with ctx.Pool(procs) as pool:
-        return pool.map(_worker, [(modname, s) for s in specs], chunksize=1)
+    try:
+        with ProcessPoolExecutor(max_workers=procs, mp_context=ctx) as pool:
+            return list(pool.map(_worker, [(modname, s) for s in specs], chunksize=1))
+    except BrokenProcessPool as exc:
+        return [("harness", f"a shard worker process died: {exc}")]
 
 
 # --------------------------------------------------------------------------- main
